@@ -26,6 +26,11 @@ def exec_simplify(spec, env):
     vs = rt.variables_of(spec["d"])
     p = rt.make_point(concrete.coords(spec.get("supplied", vs), env))
     what = spec.get("what", "pass")
+    if spec.get("pre_eval"):
+        # the input was evaluated (and differentiated numerically) at ANOTHER point before it is simplified
+        q = rt.make_point(concrete.coords(spec.get("supplied", vs), env, "q_"))
+        rt.outcome(lambda: e.at(q))
+        rt.outcome(lambda: sm.Partial(e, (vs or ["x"])[0]).at(q))
     outs = [rt.outcome(lambda: e.at(p))]
     forms = []
     logging.disable(logging.CRITICAL)
@@ -54,6 +59,13 @@ def exec_simplify(spec, env):
     if spec.get("again"):
         # simplifying a second time (flags are set now) must give the same meaning
         outs.append(rt.outcome(lambda: forms.append(e._normalize()) or 1))
+    if spec.get("reuse_after_giveup"):
+        # the SAME input object (on which the rewriter gave up) is reused inside a new expression that is simplified with the normal budget:
+        # forms[-1] is then Minus(Reciprocal-free spelling): value(e) itself, obtained as Negation(Negation(e)) / Reciprocal(Reciprocal(e))
+        wrap = spec["reuse_after_giveup"]
+        outer = {"negneg": lambda: E.Negation(E.Negation(e)), "addzero": lambda: E.Add(e, E.Constant(0)), "mulone": lambda: E.Multiply(E.Constant(1), e),
+                 "recrec": lambda: E.Reciprocal(E.Reciprocal(e))}[wrap]
+        outs.append(rt.outcome(lambda: forms.append(outer()._normalize()) or 1))
     for f in forms:
         outs.append(rt.outcome(lambda: f.at(p)))
     return outs
@@ -78,7 +90,9 @@ def pool_C(E, env):
     x, y = E.Variable("x"), E.Variable("y")
     a1, a2 = E.Add(x, y), E.Add(x, y)
     return {"s": a1, "e1": E.Multiply(a1, a2), "e2": E.Add(E.NthPower(x, 3), E.NthPower(x, 3), y),
-            "e3": E.Multiply(E.Exponential(E.Multiply(x, y)), E.Exponential(E.Multiply(x, y)))}
+            "e3": E.Multiply(E.Exponential(E.Multiply(x, y)), E.Exponential(E.Multiply(x, y))),
+            "b1": E.Power(E.Add(x, E.Constant(1)), E.Add(x, E.Constant(1))), "b2": E.Minus(E.NthPower(x, 2), E.NthPower(x, 2)),
+            "b3": E.Divide(E.Sine(E.Multiply(x, y)), E.Sine(E.Multiply(x, y)))}
 
 
 def pool_D(E, env):
@@ -133,7 +147,22 @@ def pool_J(E, env):
     return {"s": c, "e1": E.Add(E.Multiply(c, x), E.Constant(0.5)), "e2": E.Multiply(E.Constant(3.0), y, E.Power(x, c)), "e3": E.Minus(E.Constant(1e22), E.Multiply(c, y))}
 
 
-POOLS = {"J": pool_J, "I": pool_I, "H": pool_H, "G": pool_G, "F": pool_F, "A": pool_A, "B": pool_B, "C": pool_C, "D": pool_D, "E": pool_E}
+def pool_K(E, env):
+    # sums / products with a term whose offending sub-expression is removed by simplification (the domain only grows for the RESULT, never for the input object)
+    x, y = E.Variable("x"), E.Variable("y")
+    t = E.Multiply(E.Constant(0), E.Logarithm(x))
+    return {"s": t, "e1": E.Add(t, y), "e2": E.Multiply(E.NthPower(E.NthRoot(x, 2), 2), y), "e3": E.Add(E.Reciprocal(E.Reciprocal(x)), y)}
+
+
+def pool_L(E, env):
+    # a variable-free, perfectly defined sub-expression shared with expressions that get constant-folded
+    x, y = E.Variable("x"), E.Variable("y")
+    c = E.Logarithm(E.Constant(8), 2)
+    d = E.Divide(E.Constant(1), E.Constant(4))
+    return {"s": c, "e1": E.Multiply(c, E.NthPower(x, 2)), "e2": E.Add(E.Multiply(d, y), c), "e3": E.Power(x, d), "d": d}
+
+
+POOLS = {"L": pool_L, "K": pool_K, "J": pool_J, "I": pool_I, "H": pool_H, "G": pool_G, "F": pool_F, "A": pool_A, "B": pool_B, "C": pool_C, "D": pool_D, "E": pool_E}
 CREATORS = ("mk", "mkexpr")
 
 
@@ -236,6 +265,8 @@ def _show(x):
 
 def run_op(op, objs, pts, sm, E):
     k = op[0]
+    if k in ("q", "qat", "qld", "qasexp") and op[1] not in objs:
+        return {"kind": "not-created", "msg": "the object's construction raised (e.g. a LocatedDifferential outside the domain)"}
     if k == "at":
         return rt.outcome(lambda: objs[op[1]].at(pts[op[2]]))
     if k == "fwd":
@@ -265,9 +296,13 @@ def run_op(op, objs, pts, sm, E):
             objs[op[1]] = {"partial": lambda: sm.Partial(t, "x"), "partial_early": lambda: sm.Partial(t, "x", compute_early=True),
                            "diff": lambda: sm.Differential(t), "diff_early": lambda: sm.Differential(t, compute_early=True),
                            "partial_y": lambda: sm.Partial(t, "y"), "partial_t": lambda: sm.Partial(t, "t"),
+                           "located": lambda: sm.LocatedDifferential(t, pts["q"]), "located_via_diff": lambda: sm.Differential(t).at(pts["q"]),
                            "partial_t_early": lambda: sm.Partial(t, E.Variable("t"), compute_early=True)}[kind]()
             return 0
         return rt.outcome(mk)
+    if k == "qld":
+        o = objs[op[1]]
+        return rt.outcome(lambda: [o.component("x"), o.component(E.Variable("y"))])
     if k == "q":
         o = objs[op[1]]
         if isinstance(o, sm.Differential):
